@@ -7,5 +7,6 @@ CONSTANTS
   NOffer = 2
   NTake = 2
   WithClose = FALSE
+  GuardedClose = TRUE
 INVARIANTS Inv_NoPanic Inv_Bound Inv_Conservation Inv_NoDup Inv_ProducerOrder Inv_ConsumerSeesProducerOrder
 CHECK_DEADLOCK FALSE
